@@ -18,6 +18,8 @@
 (*            outside governance steps.                                    *)
 (*   feeders  the price-feeder set changes only by governance or by the    *)
 (*            feeder's own MsgSetPriceFeeder / MsgDeletePriceFeeder.       *)
+(*   burnable bank denom metadata (what the burner destroys at the zero    *)
+(*            address) grows only by the share denom of a new pool.        *)
 (***************************************************************************)
 EXTENDS Events
 
@@ -45,6 +47,11 @@ LevPoolDiff(s, t) ==
   {p \in DOMAIN s.lev.pools \cap DOMAIN t.lev.pools :
      s.lev.pools[p].leverageMax # t.lev.pools[p].leverageMax \/ s.lev.pools[p].maxRatio # t.lev.pools[p].maxRatio}
 
+\* bank denom metadata decides what the burner destroys at the zero address: the set grows only by the share denom of a pool
+\* created in the same step (amm registers it), or by governance
+MetaDenoms(s) == {s.burner.denoms[i] : i \in DOMAIN s.burner.denoms}
+NewPoolShares(s, t) == {t.amm.pools[p].shareDenom : p \in DOMAIN t.amm.pools \ DOMAIN s.amm.pools}
+
 RegistryStepChecks(k, e, s, t) ==
   LET hasP == "params" \in DOMAIN s /\ "params" \in DOMAIN t
       ms == IF hasP THEN DOMAIN s.params \cap DOMAIN t.params ELSE {}
@@ -70,6 +77,9 @@ RegistryStepChecks(k, e, s, t) ==
            k = "Admin" \/ PoolFixedDiff(s, t) = {}, IF k = "Admin" THEN "" ELSE Bad(PoolFixedDiff(s, t))),
        Chk("EXT", "EXT.oracle.feeder_set_changes_only_by_gov_or_the_feeder", k # "Admin",
            k = "Admin" \/ fd = {} \/ (ownFeederMsg /\ fd \subseteq {e.sender}), IF k = "Admin" THEN "" ELSE Bad(fd)),
+       Chk("EXT", "EXT.bank.burnable_denoms_grow_only_by_new_pool_shares", k # "Admin",
+           k = "Admin" \/ (MetaDenoms(t) \ MetaDenoms(s)) \subseteq NewPoolShares(s, t),
+           IF k = "Admin" THEN "" ELSE Bad((MetaDenoms(t) \ MetaDenoms(s)) \ NewPoolShares(s, t))),
        Chk("EXT", "EXT.leveragelp.pool_settings_change_only_by_governance", DOMAIN s.lev.pools # {} /\ k # "Admin",
            k = "Admin" \/ LevPoolDiff(s, t) = {}, IF k = "Admin" THEN "" ELSE Bad(LevPoolDiff(s, t))) }
 =============================================================================
